@@ -550,3 +550,92 @@ def marginal(job):
     except Exception as e:
         rec["exc"] = exc_name(e) + ": " + str(e)[:150]
     return rec
+
+
+# ---------------------------------------------------------------------------------------------
+# C08: arbitrary requests, configuration gate
+# ---------------------------------------------------------------------------------------------
+def request(job):
+    """job: {"n", "codes", "fmt": matrices|strings, "api": prep|readout, "conn"} -> `request` record"""
+    lib = L()
+    n, codes, api, conn = job["n"], job["codes"], job["api"], job["conn"]
+    rec = {"op": "request", "n": n, "given": codes, "api": api, "conn": conn, "fmt": job["fmt"], "outcome": "raise", "gates": [], "validate": -1, "exc": ""}
+    try:
+        st = stab_from_codes(n, codes, "matrices" if job["fmt"] == "matrices" else "strings-minus")
+        try:
+            rec["validate"] = 1 if st.validate() else 0
+        except Exception as e:
+            rec["validate"] = -1
+        if api == "prep":
+            qc = lib.stabilizer_circuits.get_preparation_circuit(st, conn)
+        else:
+            qc = lib.stabilizer_circuits.get_readout_circuit(st, conn)
+        rec["gates"] = impl.gates_of(qc)
+        rec["outcome"] = "return"
+    except Exception as e:
+        rec["exc"] = exc_name(e)
+    return rec
+
+
+def malformed(job):
+    """strings that are not n Pauli strings of length n: any exception is fine; a returned circuit is judged by the documented denotation"""
+    lib = L()
+    strs, api, conn = job
+    rec = {"strs": strs, "api": api, "conn": conn, "outcome": "raise", "exc": "", "gates": [], "n": -1, "R": [], "S": [], "ph": []}
+    try:
+        st = lib.stabilizer.Stabilizer(list(strs))
+        rec["n"] = int(st.num_qubits)
+        rec.update(_stab_fields(st))
+        qc = (lib.stabilizer_circuits.get_preparation_circuit if api == "prep" else lib.stabilizer_circuits.get_readout_circuit)(st, conn)
+        rec["gates"] = impl.gates_of(qc)
+        rec["outcome"] = "return"
+    except Exception as e:
+        rec["exc"] = exc_name(e)
+    return rec
+
+
+ENTRY_POINTS = ["get_preparation_circuit", "get_readout_circuit", "compress_preparation_circuit", "get_mub_circuits", "get_mubs", "get_mub_info",
+                "full_state_tomography_circuits", "stabilizer_measurement_circuit", "get_connectivity_graph", "is_connectivity_supported",
+                "assert_connectivity_is_supported", "full_state_tomography_circuits[subset]", "stabilizer_measurement_circuit[subset]"]
+
+
+def config_gate(job):
+    """job = (entry point, n, name) -> `config` record"""
+    from qiskit import QuantumCircuit
+    entry, n, name = job
+    lib = L()
+    rec = {"op": "config", "entry": entry, "n": n, "name": name if name is not None else "<None>", "outcome": "raise", "exc": ""}
+    try:
+        St = lib.stabilizer.Stabilizer
+        zs = ["I" * q + "Z" + "I" * (n - q - 1) for q in range(n)]
+        if entry == "get_preparation_circuit":
+            lib.stabilizer_circuits.get_preparation_circuit(St(zs), name)
+        elif entry == "get_readout_circuit":
+            lib.stabilizer_circuits.get_readout_circuit(St(zs), name)
+        elif entry == "compress_preparation_circuit":
+            lib.stabilizer_circuits.compress_preparation_circuit(QuantumCircuit(n), name)
+        elif entry == "get_mub_circuits":
+            lib.mub_circuits.get_mub_circuits(n, name)
+        elif entry == "get_mubs":
+            lib.mub_circuits.get_mubs(n, name)
+        elif entry == "get_mub_info":
+            lib.mub_circuits.get_mub_info(n, name)
+        elif entry == "full_state_tomography_circuits":
+            lib.tomography.full_state_tomography_circuits(QuantumCircuit(n), name)
+        elif entry == "stabilizer_measurement_circuit":
+            lib.tomography.stabilizer_measurement_circuit(QuantumCircuit(n), St(zs), name)
+        elif entry == "full_state_tomography_circuits[subset]":
+            lib.tomography.full_state_tomography_circuits(QuantumCircuit(n + 2), name, list(range(n + 1, 1, -1)))
+        elif entry == "stabilizer_measurement_circuit[subset]":
+            lib.tomography.stabilizer_measurement_circuit(QuantumCircuit(n + 2), St(zs), name, list(range(n + 1, 1, -1)))
+        elif entry == "get_connectivity_graph":
+            lib.connectivity_support.get_connectivity_graph(n, name)
+        elif entry == "assert_connectivity_is_supported":
+            lib.connectivity_support.assert_connectivity_is_supported(n, name)
+        elif entry == "is_connectivity_supported":
+            if not lib.connectivity_support.is_connectivity_supported(n, name):
+                raise AssertionError("reported unsupported")
+        rec["outcome"] = "return"
+    except Exception as e:
+        rec["exc"] = exc_name(e)
+    return rec
